@@ -46,7 +46,11 @@ def main():
     sens_lost = 0
     if tier == "thorough" and not os.environ.get("VERIF_NESTED") and not os.environ.get("VERIF_NO_SENS"):
         import sensitivity
-        results, sens_lost = sensitivity.run(pid)
+        try:
+            results, sens_lost = sensitivity.run(pid)
+        except Exception as e:      # the self-test is an extra: its own failure must not break the property check
+            results, sens_lost = [{"seed": "-", "status": "skipped",
+                                   "why": "sensitivity self-test could not run: %s" % str(e)[:160]}], 0
         extra = getattr(rep, "extra_cov", None) or {}
         extra["sensitivity_self_test"] = {
             "what": "each recorded seeded change this check detects, and each recorded behaviour-preserving "
